@@ -21,7 +21,7 @@ PROPS = {
                 {"name": "exhaustive", "vehicle": "overlay", "pkg": "internal/dynamiccache", "test": "TestC12Exhaustive", "quick_checks": 1, "quick_scale": 0, "thorough_scale": 2, "replayable": False},
                 {"name": "interleave", "vehicle": "overlay", "pkg": "internal/dynamiccache", "test": "TestC12Interleave", "quick_checks": 1, "quick_shards": 16, "quick_scale": 1, "thorough_shards": 16, "thorough_scale": 2},
                 {"name": "race", "vehicle": "overlay", "pkg": "internal/dynamiccache", "race": True, "test": "TestC12Race", "quick_checks": 300, "thorough_checks": 20000, "thorough_shards": 8, "replayable": False},
-                {"name": "informers", "vehicle": "overlay", "pkg": "internal/dynamiccache", "test": "TestC12Informers", "quick_checks": 30, "quick_shards": 8, "thorough_checks": 500, "thorough_shards": 16},
+                {"name": "informers", "vehicle": "overlay", "pkg": "internal/dynamiccache", "test": "TestC12Informers", "quick_checks": 240, "quick_shards": 8, "thorough_checks": 8000, "thorough_shards": 16},
             ]},
     "C20": {"level": "exploration", "assumptions": ["the registry pull is replaced by a scripted function (set in-package through the overlay); in the scripted part every scheduling decision between registration, completion and broadcast is made by the scenario; the free-running part samples Go scheduler interleavings under the race detector"],
             "parts": [
@@ -61,7 +61,9 @@ PROPS = {
             "parts": [{"name": "differential", "test": "TestC15", "quick_checks": 250, "thorough_checks": 16000, "thorough_shards": 16},
                       {"name": "recreate", "test": "TestC15Recreate", "quick_checks": 200, "thorough_checks": 12000, "thorough_shards": 16},
                       {"name": "stale-status", "test": "TestC15Stale", "quick_checks": 500, "thorough_checks": 40000, "thorough_shards": 16}]},
-    "C16": engine_prop("TestC16", quick=500, thorough=30000),
+    "C16": {"level": "exploration", "assumptions": ENGINE_ASSUMPTIONS + ["the part large runs the real deployment reconciler against controller-runtime's fake client (no admission, no size limits of its own) with generated template versions instead of rendered packages"],
+            "parts": [{"name": "engine", "test": "TestC16", "quick_checks": 500, "thorough_checks": 30000, "thorough_shards": 16},
+                      {"name": "large", "vehicle": "overlay", "pkg": "internal/packages/internal/packagedeploy", "test": "TestC16Large", "quick_checks": 96, "quick_shards": 8, "thorough_checks": 3200, "thorough_shards": 16}]},
     "C18": engine_prop("TestC18", quick=1200, thorough=80000),
     "C19": {"level": "exploration", "death_is_violation": True, "assumptions": ["inputs come from mutation grammars around valid packages / images / schemas / status shapes, not arbitrary byte strings for every entry point; a worker that dies of a Go stack overflow (unbounded recursion cannot be recovered) is reported as a violation whose replay is the case recorded right before it ran; any other worker death is inconclusive (exit 2)"],
             "parts": [
